@@ -373,7 +373,10 @@ def coordinator_unit(ctx):
     Wt = ctx.fresh(IntS, "worker_count")
     me_none = ctx.choose(2, "max_errors-is-None") == 1
     Kt = ctx.fresh(IntS, "max_errors")
-    GRAPH, FN, SCHED, SOURCES, SINGLE, MAPPING = object(), object(), object(), object(), object(), object()
+    GRAPH, SCHED, SOURCES, SINGLE, MAPPING = object(), object(), object(), object(), object()
+
+    def FN(node):      # the function to run on every node (callable), identified by identity
+        return None
 
     def assert_acyclic(graph):
         log.append(("assert_acyclic", graph))
